@@ -481,4 +481,7 @@ def target_format_text():
 
 
 def targets():      # noqa: F811
-    return _targets_before_format() + [target_format_text()]
+    # shared with C12: the parameter table `fit` prints is FitResult.to_parameters_dataframe of the last fit -- every cell of a row
+    # comes from that element's that parameter
+    from . import c12
+    return _targets_before_format() + [target_format_text(), c12.target_parameters_table()]
